@@ -3,6 +3,8 @@ import Proofs.WrapBlock2
 import Proofs.WrapGeom
 import Proofs.WrapSect6
 import Proofs.MaxLineLength
+import Proofs.SbsRow
+import Proofs.SbsRowGutter
 /-!
 C07 — side-by-side view: correct panels, fixed geometry, lossless wrapping.
 
@@ -922,5 +924,199 @@ theorem line_that_fits_rows_not_truncated_any_view (N mll T gutter len : Nat) (f
 example : configMaxLen true (some 5) 100 80 (some 400) = 1500 := by decide
 
 end MaxLineLength
+
+/-! ## The composed side-by-side row: gutters + both panels (session 4, T3)
+
+Model: `DeltaModel/SbsRow.lean` (`get_right_fill_style_for_panel`, `pad_panel_line_to_width`,
+`Painter::paint_line`, `paint_minus_or_plus_panel_line`, the row loop of
+`paint_minus_and_plus_lines_side_by_side`, `paint_zero_lines_side_by_side`, `formatted_width`,
+`available_line_width`, `UseFullPanelWidth`), every `match` arm / guard / statement order read from
+`Generated/SbsRow.lean`; gutter cells and gutter text are those of C05's `DeltaModel/LineNumbers.lean`;
+truncation and padding those of `DeltaModel/SideBySide.lean`. Proved for ALL panel widths (also
+narrower than the gutters), all format strings, all line contents (clusters of any width), both
+fill methods, with and without `--keep-plus-minus-markers`. -/
+section SbsRow
+open SbsRow SideBySide LineNumbers
+
+/-- The source has the modelled shape: the row loop writes left panel, right panel, newline; the
+left function paints and pads with `Left`, the right one with `Right`; an unchanged line goes into
+`[Left, Right]`; only the right format string gets the odd-width pad character. -/
+theorem sbs_row_shape_of_source : SbsRow.shapeOk = true := rfl
+
+/-- **sbs_left_panel_always_space_filled.** Which panel gets which fill: the left panel is filled
+with spaces whatever the line, styles and options (an ANSI "erase to end of line" there would wipe
+the right panel); the right panel is filled — by the method its caller asks for — exactly when the
+row holds a line with sections whose fill style has a background colour and the width is not
+`variable`; otherwise it is left ragged. -/
+theorem sbs_left_panel_always_space_filled (cfg : SbsRow.Cfg) (e i b : Bool) (sf : Option FillM) :
+    fillFor cfg .left e i b sf = some .spaces ∧
+    fillFor cfg .right e i b sf = (if (!e && i && b && cfg.bgExtends) then sf else none) :=
+  ⟨fillFor_left cfg e i b sf, fillFor_right cfg e i b sf⟩
+
+/-- **sbs_pad_arms_match.** The `match bg_fill_mode` of `pad_panel_line_to_width` as the source has
+it now (generated arms, truncation guard) is the padding function the earlier panel theorems
+(`left_panel_exact`, `row_width_bound`) are about. -/
+theorem sbs_pad_arms_match (cfg : SbsRow.Cfg) (pw : Nat) (line : List Item) (fill : Option FillM) :
+    padPanelG cfg pw line fill = padPanel pw line cfg.tail (toFill cfg fill) :=
+  padPanelG_eq cfg pw line fill
+
+/-- **sbs_pad_subtraction_guarded.** `panel_width - text_width` (a checked `usize` subtraction) is
+never evaluated with `text_width > panel_width`: padding can only fail inside `truncate_str`
+(its `debug_assert!` on a cluster wider than 2 columns). -/
+theorem sbs_pad_subtraction_guarded (cfg : SbsRow.Cfg) (pw : Nat) (line : List Item) (fill : Option FillM) (e : Wrap.Err)
+    (h : padPanelG cfg pw line fill = .error e) :
+    pw < measure line ∧ truncateStr line pw cfg.tail = .error e :=
+  padPanelG_error cfg pw line fill e h
+
+/-- **sbs_rows_geometry** (i + ii, changed lines). Every row of a painted subhunk — any alignment,
+any wrapping, any line contents, any gutter — is `left panel ++ right panel` where the left panel
+(gutter, marker column, text, padding) is exactly `pwL` columns wide and the right panel at most
+`pwR`: the right panel starts at the same column on every row of the run.
+Hypothesis: the truncate repair 2fafd9f is in the source (`truncate_width_false_witness` shows the
+statement is false without it). -/
+theorem sbs_rows_geometry (hok : Generated.wrapTruncStopsAfterCut = true) (cfg : SbsRow.Cfg) (c c' : Counters)
+    (m p : Nat) (al : Alignment) (wl wr : List Nat) (rl rr : List Bool) (rowsL rowsR : List (List Item))
+    (bgL bgR : List Bool) (rows : List SbsRow.Row)
+    (h : blockRows cfg c m p al wl wr rl rr rowsL rowsR bgL bgR = .ok (c', rows)) :
+    ∀ r ∈ rows, r.items = r.left ++ r.right ∧ measure r.left = cfg.pwL ∧ measure r.right ≤ cfg.pwR :=
+  fun r hr => ⟨rfl, blockRows_ok hok cfg c c' m p al wl wr rl rr rowsL rowsR bgL bgR rows h r hr⟩
+
+/-- **sbs_zero_rows_geometry** (i + ii + iii, unchanged lines). Every display row of an unchanged
+line has the same geometry, and both panels are built from the *same* sections of that row (gutter
+of the side, marker column, the sections), the left one then space-filled. -/
+theorem sbs_zero_rows_geometry (hok : Generated.wrapTruncStopsAfterCut = true) (cfg : SbsRow.Cfg) (c c' : Counters)
+    (rows : List (List Item)) (bg : Bool) (out : List SbsRow.Row) (h : zeroRows cfg c rows bg = .ok (c', out)) :
+    ∀ r ∈ out, measure r.left = cfg.pwL ∧ measure r.right ≤ cfg.pwR :=
+  zeroRows_ok hok cfg c c' rows bg out h
+
+theorem sbs_zero_row_same_text_both_sides (hok : Generated.wrapTruncStopsAfterCut = true) (cfg : SbsRow.Cfg)
+    (c c' : Counters) (st : LineNumbers.St) (secs : List Item) (bg : Bool) (row : SbsRow.Row)
+    (h : zeroRow cfg c st secs bg = .ok (c', row)) :
+    ∃ ll lr, panelLine cfg row.cells.l (zeroPrefixFor cfg) ⟨true, st, secs, bg⟩ = .ok ll ∧
+      panelLine cfg row.cells.r (zeroPrefixFor cfg) ⟨true, st, secs, bg⟩ = .ok lr ∧
+      padPanelG cfg cfg.pwL ll (some .spaces) = .ok row.left ∧
+      padPanelG cfg cfg.pwR lr (fillFor cfg .right secs.isEmpty true bg (shouldFillOf cfg Generated.SbsRow.zeroShouldFill))
+        = .ok row.right :=
+  (zeroRow_ok hok cfg c c' st secs bg row h).2
+
+/-- **sbs_row_within_width** (ii). With the panel widths `Config::from` derives from `--width w`
+(fixed or `variable`, even or odd, either `--line-fill-method`), no row of a subhunk is wider than
+`w`, and the right panel starts at column `w / 2`. -/
+theorem sbs_row_within_width (hok : Generated.wrapTruncStopsAfterCut = true) (cfg : SbsRow.Cfg) (fixed : Bool) (w : Nat)
+    (optFill : FillM) (hpw : (cfg.pwL, cfg.pwR) = panelWidthsV fixed w optFill) (c c' : Counters)
+    (m p : Nat) (al : Alignment) (wl wr : List Nat) (rl rr : List Bool) (rowsL rowsR : List (List Item))
+    (bgL bgR : List Bool) (rows : List SbsRow.Row)
+    (h : blockRows cfg c m p al wl wr rl rr rowsL rowsR bgL bgR = .ok (c', rows)) :
+    ∀ r ∈ rows, measure r.left = w / 2 ∧ measure r.items ≤ w := by
+  intro r hr
+  have hg := blockRows_ok hok cfg c c' m p al wl wr rl rr rowsL rowsR bgL bgR rows h r hr
+  have hs := panelWidthsV_spec fixed w optFill
+  have h1 : cfg.pwL = (panelWidthsV fixed w optFill).1 := congrArg Prod.fst hpw
+  have h2 : cfg.pwR = (panelWidthsV fixed w optFill).2 := congrArg Prod.snd hpw
+  unfold SbsRow.Row.items
+  rw [SideBySide.measure_append]
+  obtain ⟨g1, g2⟩ := hg
+  omega
+
+/-- **sbs_panel_is_gutter_text_fill** (i, layout of a panel). A panel whose line fits is the gutter,
+then (with `--keep-plus-minus-markers`, and only if the line has a section) the marker column, then
+the sections of the row, then the fill — nothing else, in this order; the left panel's fill is the
+spaces up to the panel width. -/
+theorem sbs_panel_is_gutter_text_fill (cfg : SbsRow.Cfg) (side : Panel) (cell : Option Cell) (pre : Option String)
+    (st : LineNumbers.St) (bg idx : Bool) (secs : List Item) (sf : Option FillM) (hne : secs ≠ [])
+    (hfit : measure (gItems cfg (renderCell cfg.fl cfg.fr cfg.minW cell)
+              ++ preItems cfg pre ++ secs) ≤ cfg.pw side) :
+    panel cfg side cell pre ⟨idx, st, secs, bg⟩ sf =
+      .ok ((gItems cfg (renderCell cfg.fl cfg.fr cfg.minW cell)
+            ++ preItems cfg pre ++ secs)
+          ++ fillItems cfg (cfg.pw side)
+              (measure (gItems cfg (renderCell cfg.fl cfg.fr cfg.minW cell)
+                ++ preItems cfg pre ++ secs))
+              (fillFor cfg side secs.isEmpty idx bg sf)) :=
+  panel_fits cfg side cell pre _ sf _ (panelLine_text cfg cell pre st bg idx secs hne) hfit
+
+/-- **sbs_sides** (iii). Row of an alignment entry: with `(Some i, None)` the left panel is built from
+display row `i` of the removed side and the right panel from *no* sections; with `(None, Some j)` the
+other way round; with `(Some i, Some j)` each side shows its own row. Removed text can only reach the
+left panel, added text only the right one. -/
+theorem sbs_sides (cfg : SbsRow.Cfg) (s : Sides) (c c' : Counters) (mi pi : Option Nat) (row : SbsRow.Row)
+    (h : blockRow cfg s c mi pi = .ok (c', row)) :
+    ∃ hl hr,
+      panel cfg .left row.cells.l (prefixFor cfg .left hl.st) hl (shouldFillOf cfg Generated.SbsRow.blockShouldFill.1)
+        = .ok row.left ∧
+      panel cfg .right row.cells.r (prefixFor cfg .right hr.st) hr (shouldFillOf cfg Generated.SbsRow.blockShouldFill.2)
+        = .ok row.right ∧
+      (match mi with
+       | some i => hl.hasIndex = true ∧ s.rowsL[i]? = some hl.secs ∧ s.sl[i]? = some hl.st
+       | none => hl.hasIndex = false ∧ hl.secs = []) ∧
+      (match pi with
+       | some j => hr.hasIndex = true ∧ s.rowsR[j]? = some hr.secs ∧ s.sr[j]? = some hr.st
+       | none => hr.hasIndex = false ∧ hr.secs = []) := by
+  obtain ⟨hl, hr, h1, h2, h3, h4⟩ := blockRow_halves cfg s c c' mi pi row h
+  refine ⟨hl, hr, h3, h4, ?_, ?_⟩
+  · cases mi with
+    | none => rw [halfOf_none] at h1; cases h1; exact ⟨rfl, rfl⟩
+    | some i => exact halfOf_some _ _ _ _ i hl h1
+  · cases pi with
+    | none => rw [halfOf_none] at h2; cases h2; exact ⟨rfl, rfl⟩
+    | some j => exact halfOf_some _ _ _ _ j hr h2
+
+/-- **sbs_empty_half_blank** (iii). The half of a row that holds no line is blank: its panel line is
+the gutter alone — no marker column, no text, no empty-line marker — whatever the options. -/
+theorem sbs_empty_half_blank (cfg : SbsRow.Cfg) (cell : Option Cell) (pre : Option String) (st : LineNumbers.St) (bg : Bool) :
+    panelLine cfg cell pre ⟨false, st, [], bg⟩ = .ok (gItems cfg (renderCell cfg.fl cfg.fr cfg.minW cell)) :=
+  panelLine_blank cfg cell pre st bg
+
+/-- **sbs_gutter_cells_are_c05** The gutter cells of the rows of a subhunk are exactly those of the C05
+counter machine over the same alignment (so `sbs_numbers_true` etc. apply to the composed row). -/
+theorem sbs_gutter_cells_are_c05 (cfg : SbsRow.Cfg) (s : Sides) (al : Alignment) (c c' : Counters) (rows : List SbsRow.Row)
+    (h : blockRowsGo cfg s c al = .ok (c', rows)) :
+    LineNumbers.sbsRows c s.sl s.sr s.rl s.rr al = .ok (c', rows.map (·.cells)) ∧ rows.length = al.length :=
+  ⟨blockRowsGo_cells cfg s al c c' rows h, blockRowsGo_length cfg s al c c' rows h⟩
+
+/-- **sbs_gutter_width_constant.** The rendered number gutter of a panel has exactly the width
+`formatted_width()` computes from the format string and `hunk_max_line_number_width` — on every
+row, whichever numbers are shown or blank — so that the text area (`available_line_width` = panel
+width minus this, minus the marker column) starts at the same column on every row. Hypotheses:
+`WfPH` (the shape `parse_line_number_format` produces; decidable; the `{nm}`/`{np}` restriction is
+needed: `Placeholder::Str` is `unreachable!` here), and the numbers shown have at most
+`hunk_max_line_number_width` digits (C05; a longer number widens its field: `pad_width`). -/
+theorem sbs_gutter_width_constant (fd : List PH) (minW : Nat) (minus plus : Option Nat)
+    (hwf : ∀ ph ∈ fd, WfPH ph) (hne : fd ≠ []) (hm : FitsW minW minus) (hp : FitsW minW plus) :
+    (renderField fd minW minus plus).length = formattedWidth fd minW :=
+  renderField_length fd minW minus plus hwf hne hm hp
+
+/-- `panelWidthsV` is `new_sbs` + `sbs_odd_fix`: left = `w / 2`, right ≥ left, sum ≤ `w`; for a fixed
+width it is the `panelWidths` of the earlier theorems. -/
+theorem sbs_panel_widths (fixed : Bool) (w : Nat) (m : FillM) :
+    (panelWidthsV fixed w m).1 = w / 2 ∧ (panelWidthsV fixed w m).1 ≤ (panelWidthsV fixed w m).2 ∧
+    (panelWidthsV fixed w m).1 + (panelWidthsV fixed w m).2 ≤ w ∧
+    (fixed = true → panelWidthsV fixed w m = panelWidths w (decide (m = .ansi))) :=
+  panelWidthsV_spec fixed w m
+
+/-! Concrete, non-trivial instances: `--width 41` (odd, ANSI fill option: panels 20 + 21), default
+side-by-side formats, a subhunk `-ab` / `+日本` paired on one row, then an unmatched added line. -/
+
+def exCfg : SbsRow.Cfg :=
+  { pwL := 20, pwR := 21, lineFill := .ansi, keepMarkers := true, bgExtends := true,
+    fl := (parseFormat "│{nm:^4}│".toList false).toOption.getD [],
+    fr := (parseFormat "│{np:^4}│".toList true).toOption.getD [],
+    minW := 2, cw := [], tail := [.text [⟨"→", 1⟩]], ansiSeq := "\x1b[0K" }
+
+example : (exCfg.pwL, exCfg.pwR) = panelWidthsV true 41 .ansi := by decide
+
+example : (∀ ph ∈ exCfg.fl, WfPH ph) ∧ exCfg.fl ≠ [] ∧ formattedWidth exCfg.fl 2 = 6 ∧ formattedWidth exCfg.fr 2 = 7 := by
+  decide
+
+example :
+    (blockRows exCfg ⟨10, 10⟩ 1 2 [(some 0, some 0), (none, some 1)] [1] [1, 1] [] []
+        [[.text [⟨"a", 1⟩, ⟨"b", 1⟩]]] [[.text [⟨"日", 2⟩, ⟨"本", 2⟩]], [.text [⟨"x", 1⟩]]] [true] [true, false]).toOption.map
+      (fun r => r.2.map fun row => (measure row.left, measure row.right))
+    = some [(20, 12), (20, 9)] := by
+  decide
+
+example : Generated.wrapTruncStopsAfterCut = true := rfl
+
+end SbsRow
 
 end C07
